@@ -1,5 +1,6 @@
 import TeaalVerif.Driver.Util
 import TeaalVerif.IR.Tensor
+import TeaalVerif.Props.C05
 open Lean
 namespace Driver
 
@@ -44,5 +45,10 @@ def rankids (j : Json) : Except String Json := do
     let final := vars.filterMap fun x => (st.get x).map fun ids => Json.arr #[Json.str x, jStrs ids]
     let inputsSame := inputs.all fun (x, ids) => st.get x == some ids
     return Json.mkObj [("ok", true), ("final", Json.arr final.toArray), ("inputs_unchanged", inputsSame)]
+
+def tmpIssued (j : Json) : Except String Json := do
+  let c ← HF.intOf (← fld j "count_before")
+  let n ← HF.intOf (← fld j "n")
+  return Json.mkObj [("issued", Json.arr ((C05.issued c n.toNat).map fun (x : Int) => (x : Json)).toArray)]
 
 end Driver
